@@ -12,3 +12,38 @@ Proof. intros c m; destruct c, m; vm_compute; reflexivity. Qed.
 
 Lemma dunder_table_length : length dunder_table = length expected_table.
 Proof. vm_compute; reflexivity. Qed.
+
+(* ---- the isinstance predicates read from the source are the model's *)
+
+Lemma gen_is_bool_like_correct : forall v, like_eval gen_is_bool_like (class_of v) = is_bool_like v.
+Proof. intros [[]|[] []]; reflexivity. Qed.
+
+Lemma gen_is_int_like_correct : forall v, like_eval gen_is_int_like (class_of v) = is_int_like v.
+Proof. intros [[]|[] []]; reflexivity. Qed.
+
+Lemma gen_is_bool_expr_like_correct : forall v,
+  like_eval gen_is_bool_expr_like (class_of v) = is_bool_expr_like_v v.
+Proof. intros [[]|[] []]; reflexivity. Qed.
+
+Lemma gen_is_int_expr_like_correct : forall v,
+  like_eval gen_is_int_expr_like (class_of v) = is_int_expr_like_v v.
+Proof. intros [[]|[] []]; reflexivity. Qed.
+
+(* ---- the type-check chain of _elementwise read from the source is the model's table *)
+
+Lemma gen_elem_table_correct : forall o ops, tc_eval gen_elem_table o ops = elem_typecheck o ops.
+Proof.
+  intros o ops. destruct o; try reflexivity;
+  cbn -[Nat.eqb forallb length];
+  destruct ops as [|a [|b [|c [|d ops]]]]; cbn;
+  repeat match goal with
+         | |- context [is_int_like ?x] => destruct (is_int_like x)
+         | |- context [is_bool_like ?x] => destruct (is_bool_like x)
+         end; cbn; rewrite ?andb_true_r, ?andb_false_r; reflexivity.
+Qed.
+
+Lemma gen_bool_ops_correct : forall o, existsb (op_eqb o) gen_bool_ops = is_bool_op o.
+Proof. destruct o; reflexivity. Qed.
+
+Lemma gen_int_ops_correct : forall o, existsb (op_eqb o) gen_int_ops = is_int_op o.
+Proof. destruct o; reflexivity. Qed.
